@@ -149,6 +149,25 @@ def check_escape(case: t.Any, ctx: Ctx) -> None:
             ctx.fail(f'escape:{w}', f"{k}/{nd.kind}", detail + f" [document: {text[:200]!r}]")
 
 
+    # YAML has scalar kinds of its own (timestamps, sets, binary): a document that is (or holds) one is still a document
+    import yaml
+    doc = YAML_NATIVE[(len(repr(v)) + len(nd.render())) % len(YAML_NATIVE)]
+    T = nd.pytype()
+    try:
+        yaml.load(doc, yaml.CSafeLoader)
+    except Exception:
+        return
+    r = _escape(ctx, nd, v, 'from_yaml', lambda: pane.from_yaml(io.StringIO(doc), T))
+    ctx.label('reader:yaml-native')
+    if r is not None:
+        (w, k, detail) = r.split('|', 2)
+        ctx.fail(f'escape:{w}', f"{k}/yaml-native", detail + f" [document: {doc!r}]")
+
+
+YAML_NATIVE = ['2020-01-01', '2020-01-01 10:00:00', '2020-01-01T10:00:00+02:00', '!!set {a, b}', '!!binary aGk=', '[2020-01-01]', '{d: 2020-01-01}',
+               '- !!set {1, 2}', '{2020-01-01: 1}', '? [1, 2]\n: 3', '0o17', '1_000', '.inf', '.nan', '~', '', 'yes', '!!timestamp 2020-01-01']
+
+
 # ---- unsupported types -------------------------------------------------------------------
 
 class _Plain:
